@@ -77,6 +77,7 @@ type txConfig struct {
 	opsPerKid  int
 	directOps  bool
 	depth      int
+	viaChanges bool // children are merged with MergeChanges(child.GetChanges()) instead of MergeMPTChanges(child)
 }
 
 func newTxWorld(c txConfig) *txWorld {
@@ -320,7 +321,13 @@ func (w *txWorld) apply(e txEvent, c txConfig, judge bool) (fail string) {
 		p := c.parent(e.Child)
 		pt, _, pk := w.node(p)
 		pRoot, kRoot := pt.GetRoot(), k.t.GetRoot()
-		err := pt.MergeMPTChanges(k.t)
+		var err error
+		if c.viaChanges {
+			nr, chs, dels, start := k.t.GetChanges()
+			err = pt.MergeChanges(nr, chs, dels, start)
+		} else {
+			err = pt.MergeMPTChanges(k.t)
+		}
 		switch {
 		case bytes.Equal(pRoot, kRoot):
 			// same root: nothing to publish
@@ -557,6 +564,8 @@ func C03(tier rt.Tier) int {
 			// a transaction inside a transaction: T1 is a child of T0
 			{name: "nested-child-of-child", initial: map[string]string{"0a1b": "p"}, paths: pfPaths[:3], vals: []string{"x"}, children: 2, parentOf: []int{-1, 0}, opsPerKid: 2, directOps: true, depth: 6},
 			{name: "restore-within-block", initial: map[string]string{"0b22": "p"}, paths: pfPaths[:2], vals: []string{"x", "y"}, children: 1, opsPerKid: 3, directOps: true, depth: 7},
+			// the other merge entry point: the child's change set handed over explicitly
+			{name: "merge-changes-2children", initial: map[string]string{"0a1b": "p", "0b22": "p"}, paths: pfPaths[:4], vals: []string{"x"}, children: 2, opsPerKid: 2, directOps: false, depth: 5, viaChanges: true},
 		}
 	} else {
 		per = 4 * time.Minute
@@ -564,6 +573,7 @@ func C03(tier rt.Tier) int {
 			{name: "prefixfree-3children", initial: map[string]string{"0a1b": "p", "0b22": "p"}, paths: pfPaths, vals: []string{"x", "y"}, children: 3, opsPerKid: 3, directOps: true, depth: 7},
 			{name: "nested-2children-pnodedb", persistent: true, initial: map[string]string{"aa": "p", "aaab": "p"}, paths: nested, vals: []string{"x", "y"}, children: 2, opsPerKid: 3, directOps: true, depth: 7},
 			{name: "empty-base-2children", initial: nil, paths: pfPaths, vals: []string{"x", "y"}, children: 2, opsPerKid: 3, directOps: true, depth: 7},
+			{name: "merge-changes-2children", initial: map[string]string{"0a1b": "p", "0b22": "p"}, paths: pfPaths, vals: []string{"x"}, children: 2, opsPerKid: 3, directOps: true, depth: 7, viaChanges: true},
 			{name: "three-key-base", initial: map[string]string{"0a1b": "p", "0a1c": "p", "1c00": "q"}, paths: pfPaths, vals: []string{"x"}, children: 2, opsPerKid: 3, directOps: true, depth: 7},
 		}
 	}
@@ -582,7 +592,7 @@ func C03(tier rt.Tier) int {
 		runTx(rep, c, time.Now().Add(per))
 	}
 	rep.RunVariant()
-	rep.Set("rule", "BFS over all event histories {open child, insert/delete in a child or directly in the block trie, merge child (MergeMPTChanges + txn-cache commit), discard child}; children are LevelNodeDB(mem, parent.db) tries sharing one StateCache/BlockCache; after every event the parent's deep fingerprint (root, pending changes with re-encoded nodes, deletes, every node of its writable store re-hashed) must be unchanged unless the event is an accepted merge or a direct parent op; merges of stale children must be rejected; every non-stale view is compared with its map model")
+	rep.Set("rule", "BFS over all event histories {open child, insert/delete in a child or directly in the block trie, merge child (MergeMPTChanges, in one run MergeChanges(child.GetChanges()), + txn-cache commit), discard child}; children are LevelNodeDB(mem, parent.db) tries sharing one StateCache/BlockCache; after every event the parent's deep fingerprint (root, pending changes with re-encoded nodes, deletes, every node of its writable store re-hashed) must be unchanged unless the event is an accepted merge or a direct parent op; merges of stale children must be rejected; every non-stale view is compared with its map model")
 	rep.Assumption("the view of a child whose parent moved on after it was opened is not checked (the property only demands that its merge is rejected and the parent stays untouched)")
 	return rep.End()
 }
